@@ -174,6 +174,9 @@ def _exact_root(c, f):
     return Fraction(float(c) ** (n / d))
 
 
+MAGNITUDE_DEGREE = 8   # highest total degree of a power product whose magnitude comparison is handed to the solver as a polynomial
+
+
 class MonoReal(SymReal):
     """A SymReal that is known to be coef * prod(var_i ** n_i) with positive variables and integer n_i, and keeps that form
     under * / and rational powers whenever the result is again such a monomial (the z3 term is rebuilt canonically, no root
@@ -250,9 +253,29 @@ class MonoReal(SymReal):
     def _isclose_hook(self, o, rel_tol, abs_tol):
         """math.isclose(c1*M, c2*M) for one power product M > 0 and abs_tol == 0 is math.isclose(c1, c2): decided exactly on the
         rational coefficients (hook of the A3 shim). Different power products: left to the solver."""
-        if isinstance(o, MonoReal) and o.exps == self.exps and abs_tol == 0:
+        if isinstance(o, MonoReal) and o.exps == self.exps:
             a, b = self.coef, o.coef
-            return a == b or abs(a - b) <= Fraction(rel_tol) * max(abs(a), abs(b))
+            if a == b or abs(a - b) <= Fraction(rel_tol) * max(abs(a), abs(b)):
+                return True          # the relative clause holds for every M; an absolute tolerance can only add to it
+            if not self.exps:
+                return abs(a - b) <= Fraction(abs_tol)     # two plain numbers
+            if abs_tol == 0:
+                return False
+            # what is left of the formula is its absolute clause |c1 - c2| * M <= abs_tol, i.e. M <= K: a question about the
+            # MAGNITUDE of the power product. Low total degree: the exact term. High degree (t**N with N in the hundreds: z3's
+            # nla::powers computes K-sized rationals to that power and does not honour its timeout): the comparison is
+            # answered by a Boolean that is named after (M, K) - the same question gets the same answer on a path - and is
+            # otherwise unconstrained. That over-approximates the path condition: 'unsat' verdicts stay valid (they hold on a
+            # superset of the path), a model that relies on an impossible combination does not replay and is reported as
+            # inconclusive, never as a violation.
+            import z3
+            from .common import SymBool
+            from symx.core import rv
+            K = Fraction(abs_tol) / abs(a - b)
+            if sum(abs(e) for e in self.exps.values()) <= MAGNITUDE_DEGREE:
+                return SymBool(MonoReal(1, self.exps, self.vars).t <= rv(K))
+            key = ",".join(f"{k}^{e}" for k, e in sorted(self.exps.items()))
+            return SymBool(z3.Bool(f"magnitude!{key}<={K.numerator}/{K.denominator}"))
         return None
 
     def __pow__(self, p, mod=None):
@@ -280,8 +303,9 @@ def mclose(a, b, extra=0, tol=Fraction(1, 10**6)):
     return close(a, b, extra=extra, tol=tol)
 
 
-def positive_scale(ctx, name, N=1):
-    """a positive scale symbol, introduced as t**N (see MonoReal); concrete/pinned modes: the plain number"""
+def positive_scale(ctx, name, N=1, replay_range=(1e-12, 1e12)):
+    """a positive scale symbol, introduced as t**N (see MonoReal); concrete/pinned modes: the plain number.
+    replay_range: see below; cases whose verdict depends on the MAGNITUDE of a scale (and that take no high powers of it) widen it"""
     t = ctx.real(name, pos=True)
     if ctx.symbolic and not ctx.pinned:
         return MonoReal.power_of(t, N)
@@ -293,7 +317,7 @@ def positive_scale(ctx, name, N=1):
         f = float("inf")
     # replay / conformance: the same number the symbolic run means (t**N) while that is a comfortable double, else t itself
     # (every positive number is a legitimate scale; a violation that does not reproduce is reported as inconclusive)
-    return t ** N if 1e-12 < f < 1e12 else t
+    return t ** N if replay_range[0] < f < replay_range[1] else t
 
 
 def lcm(a, b):
